@@ -176,6 +176,12 @@ def param_value(it, prog, pat, ty, counter):
     inner = t[t.index("<") + 1:-1] if "<" in t else ""
     if base in ("Query", "Json", "Form", "Path"):
         ity = inner.split("<")[0].split("::")[-1]
+        if ity == "Vec" and "<" in inner:
+            # web::Json<Vec<T>>: a list of request objects - one element with symbolic fields stands for every element (the handler treats them alike)
+            ety = inner[inner.index("<") + 1:-1].split("<")[0].split("::")[-1]
+            if ety in prog.structs and prog.structs[ety]:
+                lst = [sym_struct(it, prog, ety, counter)]
+                return Struct(base, {"0": lst})
         if ity in prog.structs and prog.structs[ity]:
             inner_v = sym_struct(it, prog, ity, counter)
             # web::Query<T> & co: `param.0`, `web::Query(param)`, `param.into_inner()` and (through Deref) `param.field`
